@@ -289,6 +289,14 @@ func transitions(c *cfg, st state, v int) (outs []outcome, truncated *big.Float,
 					own = o
 					return
 				}
+			} else if pos == 0 && nb < c.Size {
+				// Exact regime and no pass is due, yet the code draws a random
+				// word: whatever it does with it, the outcome must not depend on
+				// it ("Count equals the exact number", without a probability).
+				// The extreme words are the ones a threshold test can single out.
+				ws = []uint64{0, 1, math.MaxUint64 - 1, math.MaxUint64}
+				q := new(big.Float).SetPrec(prec).Quo(fint(1), fint(4))
+				rs = []*big.Float{q, q, q, q}
 			} else {
 				passes := pos
 				if st.p < math.MaxUint64 {
